@@ -31,19 +31,19 @@ type (
 		X Expr
 		F string
 	}
-	EIdx struct{ X, I Expr }
-	EUpd struct{ X, I, V Expr } // a[i := v]
-	ESlc struct{ X, Lo, Hi Expr }
+	EIdx  struct{ X, I Expr }
+	EUpd  struct{ X, I, V Expr } // a[i := v]
+	ESlc  struct{ X, Lo, Hi Expr }
 	ECall struct {
 		F    string
 		Args []Expr
 	}
 	EOld   struct{ X Expr }
 	EQuant struct {
-		All   bool
-		Vars  []QVar
-		Trig  []Expr
-		Body  Expr
+		All  bool
+		Vars []QVar
+		Trig []Expr
+		Body Expr
 	}
 	EIte struct{ C, A, B Expr }
 )
@@ -483,14 +483,14 @@ func (p *parser) parsePrimary() Expr {
 // ---------------------------------------------------------------- contracts
 
 type Clause struct {
-	Kind string   // requires ensures invariant modifies decreases
-	Tags []string // property ids; empty = carrier for all
-	Src  string
-	E    Expr   // nil for modifies
-	Mods []Expr // for modifies
-	Line int
-	File string
-	Ord  int // ordinal within its kind inside the contract
+	Kind            string   // requires ensures invariant modifies decreases
+	Tags            []string // property ids; empty = carrier for all
+	Src             string
+	E               Expr   // nil for modifies
+	Mods            []Expr // for modifies
+	Line            int
+	File            string
+	Ord             int    // ordinal within its kind inside the contract
 	Family, Allowed string // onlywrites
 	Site            string // assert: Callee#n
 }
@@ -557,26 +557,26 @@ type GhostVar struct {
 }
 
 type ContractDB struct {
-	Funcs   map[string]*FuncContract
-	Specs   map[string]*SpecFunc
-	Ghosts  map[string]*GhostVar
+	Funcs      map[string]*FuncContract
+	Specs      map[string]*SpecFunc
+	Ghosts     map[string]*GhostVar
 	GhostOrder []string
-	Axioms  []*Clause
-	Imports map[string]map[string]string // pkg path -> alias -> import path
-	Consts  map[string]Expr              // spec-level named constants
-	Files   []string
-	Lemmas  []*Lemma
+	Axioms     []*Clause
+	Imports    map[string]map[string]string // pkg path -> alias -> import path
+	Consts     map[string]Expr              // spec-level named constants
+	Files      []string
+	Lemmas     []*Lemma
 }
 
 type Lemma struct {
-	Name    string
-	Tags    []string
-	Vars    []QVar
-	Hyps    []Expr
-	Concl   []Expr
-	File    string
-	Line    int
-	Pkg     string
+	Name  string
+	Tags  []string
+	Vars  []QVar
+	Hyps  []Expr
+	Concl []Expr
+	File  string
+	Line  int
+	Pkg   string
 }
 
 func NewContractDB() *ContractDB {
